@@ -42,6 +42,8 @@ class Hooks:
 
     def __init__(self, monitors, proposal_budget=None, clock=None):
         self.monitors = list(monitors)
+        for m in self.monitors:
+            m.hooks = self          # monitors reach the captured proposals / counters through this, driver or not
         self.budget = proposal_budget
         self.clock = clock
         self.counts = {}
